@@ -244,14 +244,19 @@ def stale_redirect_witness(run: Any) -> str | None:
     CompleteTask message whose queue row was inserted *before* the last re-arm
     (->NOT_STARTED) of that task."""
     groups = Groups(run.commits)
+    since = getattr(run, "since", 0)  # resumed runs: rows written before the crash belong to no commit of this world
     ins_seq = {a["a"]: a["seq"] for a in run.audit if a["kind"] == "queue" and a["op"] == "ins"}
     marks = {}
     for a in run.audit:
-        if a["kind"] == "mark" and a["op"] == "ins" and a["b"] == "CompleteTask":
+        if a["seq"] > since and a["kind"] == "mark" and a["op"] == "ins" and a["b"] == "CompleteTask":
             marks.setdefault(groups.of(a["seq"]), a["a"])
     last_rearm: dict[str, int] = {}
     for a in run.audit:
         if a["kind"] != "status" or a["op"] != "task":
+            continue
+        if a["seq"] <= since:
+            if a["d"] == "NOT_STARTED":
+                last_rearm[a["a"]] = a["seq"]
             continue
         if a["d"] == "NOT_STARTED":
             last_rearm[a["a"]] = a["seq"]
@@ -287,8 +292,9 @@ def recovery_started_parent_before_children(run: Any) -> str | None:
             pid = run.state["stages"].get(parent_ref, {}).get("id")
             if pid:
                 children.setdefault(pid, []).append(v["id"])
+    since = getattr(run, "since", 0)
     for a in run.audit:
-        if a["kind"] == "queue" and a["op"] == "ins" and a["c"] == "StartTask":
+        if a["seq"] > since and a["kind"] == "queue" and a["op"] == "ins" and a["c"] == "StartTask":
             g = groups.of(a["seq"])
             tag = groups.tag(g)
             if not tag or tag[0] != "Recovery":
@@ -310,9 +316,11 @@ def lost_plan_witness(run: Any) -> str | None:
     processed: the plan's store_stage lost the optimistic lock to a concurrent writer of
     the same stage row and StartStageHandler swallowed the ConcurrencyError."""
     groups = Groups(run.commits)
+    since = getattr(run, "since", 0)
     by_group: dict[int, list[dict]] = {}
     for a in run.audit:
-        by_group.setdefault(groups.of(a["seq"]), []).append(a)
+        if a["seq"] > since:
+            by_group.setdefault(groups.of(a["seq"]), []).append(a)
     id2ref = {v["id"]: k for k, v in run.state.get("stages", {}).items()}
     for g, rows in by_group.items():
         tag = groups.tag(g)
